@@ -10,7 +10,8 @@ def main(seed, tier):
     specs += [("props.ibantasks", "IbanTask", (cc, "is_valid")) for cc in ccs]
     if tier == "thorough":
         specs += [("props.ibantasks", "IbanTask", (cc, "validate")) for cc in ccs]
-    specs += [("props.bictasks", "BicTask", (m,)) for m in ("construct", "validate", "is_valid")]
+    specs += [("props.ibantasks", "IbanTask", (cc, "from-object")) for cc in ("DE", "GB", "NO", "None")]
+    specs += [("props.bictasks", "BicTask", (m,)) for m in ("construct", "validate", "is_valid", "from-object")]
     results = common.run_tasks(specs, seed, tier)
     return common.finish(
         "C05", results, t0, seed, tier, assumptions=c01.ASSUMPTIONS + [
